@@ -163,6 +163,7 @@ def run(ctx):
         "compared", "byte_equal", "gating_faults", "differ", "cells_op_version_outcome")}
     ctx.coverage["evaluations"] += enc.get("compared") or 0
     session_part(ctx)
+    later_field_part(ctx)
     import e2e_hook
     e2e_hook.run(ctx, ["c16"])
     if divs and not ctx.violations:
@@ -274,6 +275,112 @@ def replay_session(ctx, rep):
         rig.close()
 
 
+# ------------------------------------------------------------------ message fields of a later version, on the wire
+# first tag of each KMIP version's block of the tag table (KMIP specification 9.1.3.1; every version appends its new
+# tags to the table): a tag at or above a boundary names a message field / attribute that version introduced
+TAG_BLOCKS = [(0x420125, 20), (0x4200F8, 14), (0x4200D4, 13), (0x4200B8, 12), (0x4200A2, 11)]
+
+
+def tag_version(tag):
+    for first, v in TAG_BLOCKS:
+        if first <= tag < 0x430000:
+            return v
+    return 10
+
+
+def later_field_part(ctx):
+    """Valid single-item requests that carry a field introduced in version g (encoded by the real encoder under a
+    version >= g), re-headed to every supported version BELOW g and sent to the real KmipSession: the item must not be
+    answered Success and the store must not change - "a message field introduced in a later KMIP version is never
+    accepted from a client speaking an earlier one".  Which version introduced a field is read off its TAG (the
+    specification's tag table grows by version), not off the code."""
+    import random
+    import impl_session as S
+    import gen_session as G
+    from props import c12
+    rnd = random.Random(ctx.seed * 977 + 1616)
+    sg = G.SessGen(rnd)
+    quick = ctx.tier == "quick"
+    want = 260 if quick else 4000
+    frames = []
+    tries = 0
+    while len(frames) < want and tries < want * 6:
+        tries += 1
+        v = rnd.choice([12, 13, 14, 14, 20, 20])
+        x = sg.valid(v=v, sure=rnd.random() < 0.3)
+        if not x or len(x[1]["ops"]) != 1 or len(x[0]) > 4000:
+            continue
+        fr = x[0]
+        idx = G.ttlv_index(fr)
+        later = [(tag_version(e["tag"]), e["tag"]) for e in idx if tag_version(e["tag"]) > 10]
+        if not later:
+            continue
+        g, tag = max(later)
+        lows = [w for w in VERS if w < g]
+        if not lows:
+            continue
+        frames.append((fr, v, g, tag, x[1]["ops"][0], rnd.choice(lows)))
+    rig = S.Rig()
+    n = accepted = 0
+    by_gate, by_answer = {}, {}
+    try:
+        snap = c12.setup_base(rig)
+        for fr, v, g, tag, op, lo in frames:
+            b = bytearray(fr)
+            idx = G.ttlv_index(fr)
+            mj = [e for e in idx if e["tag"] == 0x42006A]
+            mn = [e for e in idx if e["tag"] == 0x42006B]
+            if not mj or not mn:
+                continue
+            b[mj[0]["off"] + 8:mj[0]["off"] + 12] = (lo // 10).to_bytes(4, "big")
+            b[mn[0]["off"] + 8:mn[0]["off"] + 12] = (lo % 10).to_bytes(4, "big")
+            rig.restore(snap)
+            res = rig.run_session([bytes(b)], S.make_cert(), digests=False)
+            obs = [o for o in c12.observe(rig, res) if o["k"] == "handled"]
+            n += 1
+            by_gate["%d->%d" % (g, lo)] = by_gate.get("%d->%d" % (g, lo), 0) + 1
+            if len(obs) != 1 or obs[0]["obs"] is None:
+                by_answer["no-decodable-response"] = by_answer.get("no-decodable-response", 0) + 1
+                continue
+            its = obs[0]["obs"]["items"]
+            key = "/".join("%s:%s" % (i["status"], i["reason"]) for i in its)
+            by_answer[key] = by_answer.get(key, 0) + 1
+            if any(i["status"] == "SUCCESS" for i in its) or not obs[0]["unchanged"]:
+                accepted += 1
+                ctx.report("c16:later-field-accepted:%s:tag-%06X:under-%d" % (op, tag, lo),
+                           "a %s request carrying the field with tag 0x%06X (introduced in KMIP %d.%d) under a KMIP %d.%d "
+                           "header was answered %s%s" % (op, tag, g // 10, g % 10, lo // 10, lo % 10, key,
+                                                        "" if obs[0]["unchanged"] else " and the store changed"),
+                           {"kind": "later-field", "frame": bytes(b).hex(), "tag": tag, "gate": g, "under": lo})
+    finally:
+        rig.close()
+    ctx.coverage["later_field_frames"] = n
+    ctx.coverage["later_field_frames_by_gate"] = by_gate
+    ctx.coverage["later_field_answers"] = by_answer
+    ctx.coverage["evaluations"] += n
+
+
+def replay_later_field(ctx, rep):
+    import impl_session as S
+    from props import c12
+    r = rep["replay"]
+    rig = S.Rig()
+    try:
+        snap = c12.setup_base(rig)
+        rig.restore(snap)
+        res = rig.run_session([bytes.fromhex(r["frame"])], S.make_cert(), digests=False)
+        obs = [o for o in c12.observe(rig, res) if o["k"] == "handled"]
+        if len(obs) != 1 or obs[0]["obs"] is None:
+            return True
+        its = obs[0]["obs"]["items"]
+        bad = any(i["status"] == "SUCCESS" for i in its) or not obs[0]["unchanged"]
+        if bad:
+            print("  answered %s, store unchanged: %s" % (its, obs[0]["unchanged"]))
+        return not bad
+    finally:
+        rig.close()
+
+
 def search(ctx, broken):
     matrix = engine_check.run_many([ctx.seed * 31 + k for k in range(4)], 0, {"builtin_policies_only": True},
                                    True, "props.c16.matrix_builder")
@@ -281,6 +388,7 @@ def search(ctx, broken):
     engine_check.standard_search(ctx, {"groups": 0.0}, MONITORS, 30)
     ctx.coverage.setdefault("evaluations", 0)
     session_part(ctx)
+    later_field_part(ctx)
 
 
 def replay(ctx, rep):
@@ -289,6 +397,8 @@ def replay(ctx, rep):
         return e2e_hook.replay(ctx, rep)
     if (rep.get("replay") or {}).get("kind") == "session-versions":
         return replay_session(ctx, rep)
+    if (rep.get("replay") or {}).get("kind") == "later-field":
+        return replay_later_field(ctx, rep)
     if (rep.get("replay") or {}).get("kind") == "encode":
         import encode_check
         return encode_check.replay_case(ctx, rep)
